@@ -81,7 +81,7 @@ func cmdTimePump(args []string) int {
 				if d < best {
 					best = d
 				}
-				if best > 3*time.Second {
+				if best > 200*time.Millisecond {
 					break
 				}
 			}
